@@ -40,7 +40,9 @@ def do_check(prop, tier, seed):
     for v in res.get('violations', []):
         known = [f for f in findings if finding_matches(f, prop, v)]
         if known:
-            lines.append(f"KNOWN-FINDING: property={prop} {known[0]['what']}")
+            line = f"KNOWN-FINDING: property={prop} {known[0]['what']}"
+            if line not in lines:
+                lines.append(line)
             continue
         path = common.write_replay(prop, dict(property=prop, **v['replay']))
         tail = '' if v.get('found_input', True) else ' no-failing-input-found'
